@@ -30,13 +30,16 @@ class TypeDef:
         # hostile: {"type": name, "param": name}: the item lives in `mod def` under a prelude-shadowing glob import and is
         # re-exported as X; variant / field names are already the hostile ones
         self.hostile = hostile
+        # explicit discriminants (enums): per variant None | int; the order of values of different variants is the declaration order whatever they say
+        self.discr = None
 
     def describe(self):
         vs = []
         for v in self.variants:
             vs.append("%s%s[%s]" % (v.name, {"unit": "", "tuple": "()", "named": "{}"}[v.kind],
                                     ", ".join("%s:%s%s" % (f.ty, R.combo_name(f.combo), ("{key=$ on %s}" % ",".join(sorted(f.idk))) if f.idk else "") for f in v.fields)))
-        return "%s %s derive=%s entry=%s %s" % ("enum" if self.is_enum else "struct", " | ".join(vs), "+".join(self.derived), self.entry, "generic" if self.generic else "")
+        return "%s %s derive=%s entry=%s %s%s" % ("enum" if self.is_enum else "struct", " | ".join(vs), "+".join(self.derived), self.entry, "generic" if self.generic else "",
+                                                  (" discriminants=%s" % ",".join("_" if d is None else str(d) for d in self.discr)) if self.discr else "")
 
 
 def key_name(td, a, f=None):
@@ -107,8 +110,9 @@ def typedef_text(td, extra_derives=("Debug", "Clone")):
         return "(" + ", ".join(fs) + ")"
 
     if td.is_enum:
-        body = ",\n    ".join(v.name + fields_text(v) for v in td.variants)
-        return wrap(td, "%spub enum %s%s {\n    %s\n}\n" % (head, real_name, g, body))
+        dis = td.discr or [None] * len(td.variants)
+        body = ",\n    ".join(v.name + fields_text(v) + ("" if d is None else " = %d" % d) for v, d in zip(td.variants, dis))
+        return wrap(td, "%s%spub enum %s%s {\n    %s\n}\n" % (head, "#[repr(u8)]\n" if td.discr else "", real_name, g, body))
     v = td.variants[0]
     ft = fields_text(v)
     if v.kind == "named":
@@ -477,7 +481,19 @@ def random_typedef(rng, derived, entry=None, keys="distinct", max_fields=4, allo
         vs = [Variant("X", kind, mkfields(kind))]
     if generic and not any("u8" in f.ty for v in vs for f in v.fields):
         generic = False
-    return TypeDef(is_enum, vs, list(derived), entry or rng.choice(["attr", "derive", "attr", "derive", "attr", "derive", "attr_split", "attr_split_colon", "attr_split_last", "attr_split_bare"]), generic, keys)
+    td = TypeDef(is_enum, vs, list(derived), entry or rng.choice(["attr", "derive", "attr", "derive", "attr", "derive", "attr_split", "attr_split_colon", "attr_split_last", "attr_split_bare"]), generic, keys)
+    if is_enum and len(vs) >= 2 and rng.random() < 0.35:
+        # explicit discriminants, some or all, not ascending, values colliding with the positions of other variants
+        for _ in range(20):
+            dis = [rng.choice([None, rng.randint(0, 5), rng.randint(0, 5), len(vs) - 1 - i]) for i in range(len(vs))]
+            vals, cur = [], -1
+            for d in dis:
+                cur = d if d is not None else cur + 1
+                vals.append(cur)
+            if len(set(vals)) == len(vals) and any(d is not None for d in dis) and vals != sorted(vals) or (len(set(vals)) == len(vals) and any(d is not None for d in dis) and vals != list(range(len(vals)))):
+                td.discr = dis
+                break
+    return td
 
 
 def single_field_typedef(combo, derived, placement="named", entry="attr", keys="consistent", ty="u8"):
